@@ -66,9 +66,11 @@ class Tok:
 class FuncTok(Tok):
     kind = 'func'
 
-    def __init__(self, module, qualname, node=None):
-        super().__init__(f'{module}.{qualname}')
+    def __init__(self, module, qualname, node=None, closure=None):
+        # a function made by a factory call (`f = make('name')`) is identified by the factory *and* the constants it closed over
+        super().__init__(f'{module}.{qualname}' + ('' if not closure else '#' + repr(sorted(closure.items()))))
         self.module, self.qualname, self.node = module, qualname, node
+        self.closure = closure or {}
 
     @property
     def name(self):
@@ -244,7 +246,13 @@ class Evaluator:
         ev = lambda e: self.eval(e, env, module)
         if isinstance(st, (ast.FunctionDef, ast.AsyncFunctionDef)):
             q = (cls.name + '.' if cls else '') + st.name
-            tok = FuncTok(module, q, st)
+            outer = getattr(self, '_call_stack', None)
+            if outer and isinstance(env, _ChainEnv):
+                # defined while a factory call is being folded: a closure over the constants bound in that call
+                q = f'{outer[-1]}.<locals>.{st.name}'
+                tok = FuncTok(module, q, st, {k: v for k, v in env.local.items() if isinstance(v, (str, int, bool, type(None)))})
+            else:
+                tok = FuncTok(module, q, st)
             decs = [ast.unparse(d) for d in st.decorator_list]
             if any(d == 'property' or d.endswith('.setter') or d.endswith('.deleter') for d in decs):
                 tok.is_property = True
@@ -717,6 +725,7 @@ class Evaluator:
                 local[p.arg] = self._eval(defaults[p.arg], menv, fn.module)
         scope = _ChainEnv(local, menv)
         self._call_depth = depth + 1
+        self._call_stack = getattr(self, '_call_stack', []) + [fn.qualname]
         try:
             self.exec_body(node.body, scope, fn.module, None)
             return None
@@ -728,6 +737,7 @@ class Evaluator:
             return Unknown(f'call of repo function {fn.key}')
         finally:
             self._call_depth = depth
+            self._call_stack = self._call_stack[:-1]
 
     def construct(self, cls: ClassTok, args, kwargs):
         if any(b.name == 'NamedTuple' for b in cls.mro()[1:]) or '__fields__' in cls.ns:
